@@ -119,7 +119,7 @@ ADDENDA = {
  "C07": " Added later: an engine WITH a persister kept for the whole session, a gateway that serves each request through engine.Loop, and - per application - all pairs of histories of two sessions served alternately (second one also starting two requests later) through ONE flushing persister, compared with being served alone; corpus applications with a first function, two lists with different browse labels, a failing load followed by another failing instruction. Round 5: a twin whose application functions keep their own data in the store handle the persister uses (examples/db arrangement).",
  "C08": " Added later: deep descents with a first function and after a failed load, junk input at the deepest point; terminated sessions that client code unblocks by clearing TERMINATE in the stored record. Round 5: a first function that fails on one request of the session (defect found and fixed).",
  "C09": " One of the values is the byte 0xff (not valid UTF-8); the clone copies every scalar field the tree declares.",
- "C10": " Added later: SetLock(0,false) as a seal request, eng (the library's default language) as one of the two languages, keys handed over as slices with caller-owned bytes behind them, value buffers overwritten by the caller after the call, and keys of 251/252 bytes.",
+ "C10": " Added later: SetLock(0,false) as a seal request, eng (the library's default language) as one of the two languages, keys handed over as slices with caller-owned bytes behind them, value buffers overwritten by the caller after the call, and keys of 251/252 bytes. Round 6: listings of the resource data types (stored without session) are constrained too, on handles with and without a session, while no translation of that type is stored (defect found and fixed).",
  "C11": " Added later: listing on the Postgres backend, sessions whose ids contain each other (own listing exact), records copied with Get+Put, and three persister arrangements (one per session, one re-pointed with WithSession, store handle shared with code that selects USERDATA). Round 6: two application-defined data types (64, 128; stored per session like state and user data) and session ids that differ from another id - or from the empty id - only by white space.",
  "C12": " Added later: every operation of the request is also answered once with an I/O error (refused; writes also as short writes) after which the request runs on - also with a flushing persister and a client that retries a failed Finish; and for every history the next start's read of the record fails once.",
  "C13": " Added later: Stop directly after an error inside the explicit transaction (may fail; if it reports success the transaction's writes are there). Round 5: the listing (Dump of the common prefix, drained or left after the first entry) and Abort without an explicit transaction are operations of the userdata variant's alphabet (thorough: length 5; the core alphabet without them: length 6); the '-after-earlier-stop' qualifier of the open findings is dropped for runs that leave that mode with Abort/Start before using it.",
